@@ -4,7 +4,7 @@ From GV Require Import Front.Infix Front.InfixProofs Front.OpLookup Front.OpLook
 From GV Require Import Front.InfixComplete.
 From GV Require Import Front.SpanCheck Front.SpanCheckProofs Front.LayoutCheck Front.LayoutCheckProofs.
 From GV Require Front.AstEq.
-From GV Require Front.LayoutBase Front.Layout Front.LayoutProofs Front.LayoutModelProofs.
+From GV Require Front.LayoutBase Front.Layout Front.LayoutProofs Front.LayoutModelProofs Front.LayoutTermination.
 Import ListNotations.
 
 (* The in-order traversal of the re-associated tree is the input chain. *)
@@ -150,3 +150,14 @@ Print Assumptions C08_layout_model_preserves_prefix.
 Theorem C08_ast_eqb_eq : forall a b : AstEq.sx, AstEq.ast_eqb a b = true <-> a = b.
 Proof. exact AstEq.ast_eqb_eq. Qed.
 Print Assumptions C08_ast_eqb_eq.
+
+(* The whole run of the layout model terminates: for every token stream that ends in EOF the
+   100·|raw| + 10 calls of layout_next_token the model is given always suffice (potential argument:
+   every call that emits a token other than EOF lowers a potential bounded by 100·|raw| + 7); together
+   with C08_layout_step_terminates (2·|contexts| + 3 iterations per call) the run is bounded linearly
+   in the input length and the context depth. *)
+Theorem C08_layout_model_terminates : forall raw : list LayoutBase.mtok,
+  LayoutBase.k (last raw (LayoutBase.MTok LayoutBase.TEOF 12 0 1 0 0)) = LayoutBase.TEOF ->
+  forall out, Layout.layout raw <> Layout.RFuel out.
+Proof. exact LayoutTermination.layout_model_terminates. Qed.
+Print Assumptions C08_layout_model_terminates.
